@@ -13,7 +13,7 @@ CLAIMED = {
    note="Key sets come from seeded shapes (1-4 branching positions, alphabets straddling node-class boundaries, dense ranges, sparse keys; byte-string keys up to 24 bytes incl. deep shapes that branch beyond byte 8, kept representable step by step with the reference radix tree); oracle = std::map. " + SC,
    technique="deterministic simulation: seeded operation histories across simulated threads, checked against a map model + allocation ledger"),
  "C02": dict(engine="seqsim", level="exploration", design="DESIGN.md §6 C02",
-   text="C01-style histories with scan, scan_from and scan_range (both directions, halt after 1-6 visits or at any position up to past the end) interleaved; bounds are stored keys, their neighbours, keys leaving the tree at every depth, 0 and max; "
+   text="C01-style histories with scan, scan_from and scan_range (both directions, halt after 1-6 visits or at any position up to past the end) interleaved; bounds are stored keys, their neighbours, keys leaving the tree at every depth, 0 and max, and for byte-string keys also bounds of other lengths than the stored keys (proper prefixes, extensions); "
         "caller-side bound buffers are placed in both address orders; the visited (key, value) sequence must equal the model's range exactly and the visitor must not be called after returning true.",
    note="Byte-string key sets are restricted to representable ones (D1 is owned by C01). " + SC,
    technique="deterministic simulation: seeded histories with scans, exact comparison with the ordered-map model"),
@@ -25,7 +25,7 @@ CLAIMED = {
    technique="deterministic simulation: seeded scheduler over parked OS threads + per-key linearizability checking"),
  "C04": dict(engine="olcsim", level="exploration", design="DESIGN.md §6 C04",
    text="C03/C09 workloads where readers and scanners keep the value views they received and re-read them (each re-read a scheduling point) until their own next quiescent state; quiescent states after every "
-        "operation, every second one or only at thread exit; thread exit with pending requests happens inside the run. Oracles: every hooked access must hit a live ledger block, ASan poison on logically freed "
+        "operation, every second one or only at thread exit; thread exit with pending requests, qsbr_pause()+qsbr_resume() between operations and a qsbr_thread started by a running thread happen inside the run. Oracles: every hooked access must hit a live ledger block, ASan poison on logically freed "
         "blocks for un-hooked accesses, held views unchanged, reachable nodes touched by the sweep, ledger empty and nothing freed twice after drain and destruction.",
    note="Logical free (no address reuse within a run). " + SC,
    technique="deterministic simulation: seeded scheduler + allocation ledger with logical free/poison + held-view monitor"),
@@ -55,7 +55,7 @@ CLAIMED = {
    note="Allocation failure delivered through the --wrap=posix_memalign seam and the harness' operator new; histories <= 120 operations.",
    technique="deterministic simulation: exhaustive allocation-failure enumeration per operation through link-time seams"),
  "C09": dict(engine="olcsim", level="exploration", design="DESIGN.md §6 C09",
-   text="One or two scanner threads (scan, scan_from, scan_range, both directions, optional halt) against one to three writers restructuring nodes on the scanner's path in two- and three-level trees; "
+   text="One or two scanner threads (scan, scan_from, scan_range, both directions, optional halt) against one to three writers restructuring nodes on the scanner's path in two- and three-level trees (uint64 keys, fixed- and variable-length byte-string keys, bounds of other lengths than the stored keys); "
         "the scan oracle uses call/return stamps of writers and per-visit stamps: strictly monotone keys inside the interval, each value one its key could have held between the scan's call and the visit, "
         "every key provably present throughout delivered exactly once, no value provably removed before the scan began.",
    note="All judgements conservative (an interval overlaps unless the stamps prove otherwise). " + SC,
@@ -68,7 +68,7 @@ CLAIMED = {
    technique="deterministic simulation: seeded histories checked against a reference radix-tree shape model and the allocation ledger"),
  "C13": dict(engine="mutexsim", level="exploration", design="DESIGN.md §6 C13",
    text="2-8 plain simulated threads x 1-5 operations (get/insert/remove/empty/clear/scans; at most 22 per history) on one mutex_db<uint64> or mutex_db<key_view> over small key pools; scheduling points at every wrapped mutex call, every in_fake_critical_section access and "
-        "allocation notification inside the tree, and while a get handle is held. The mutex is simulated as a blocking resource. Whole-history linearizability against a map with multi-key operations; owns_lock() == hit "
+        "allocation notification inside the tree, and while a get handle is held; allocation failures are injected into inserts and removes (a failed operation must have no effect and must not leave the mutex held). The mutex is simulated as a blocking resource. Whole-history linearizability against a map with multi-key operations; owns_lock() == hit "
         "and the simulator's owner table after every call; held values re-read while writers queue; ledger flags a leaf freed under a held handle; deadlock detection.",
    note="<= 22 operations per history; the quantifier's free-running threads are replaced by schedules the simulator decides. " + SC,
    technique="deterministic simulation: seeded scheduler with simulated mutex blocking + whole-map linearizability checking"),
